@@ -245,6 +245,48 @@ def cache_path_roundtrip(task):
     return viol, n_nodes
 
 
+def two_roots(task):
+    """Two project directories served by one process: a module of the same dotted path and the same mtime exists in both,
+    with different text. Whatever tree a session gets (parsed, or restored from that directory's own cache) must be the
+    tree of the file in *its* directory. History: A, B, A again, B again (the later two restore from the caches)."""
+    import shutil
+    import tempfile
+    from mc.core.runner import REPO
+    from mc.tranp.session import Session, ensure_workdir
+    idx, (src_a, src_b) = task
+    root_a = ensure_workdir()
+    root_b = tempfile.mkdtemp(prefix='tranp-verif-second-')
+    pkg = f'c15t{os.getpid()}x{idx}'
+    mod = f'{pkg}.m'
+    viol = []
+    try:
+        os.symlink(os.path.join(REPO, 'data'), os.path.join(root_b, 'data'))
+        # reference tables first, while the module exists in memory only (parsed on every request, no cache of any kind involved)
+        want = {}
+        for name, src in (('A', src_a), ('B', src_b)):
+            want[name] = node_table(Session({mod: src}, cache=False), mod)
+        for root, src in ((root_a, src_a), (root_b, src_b)):
+            os.makedirs(os.path.join(root, pkg), exist_ok=True)
+            fp = os.path.join(root, pkg, 'm.py')
+            with open(fp, 'w') as f:
+                f.write(src)
+            os.utime(fp, (1700000000, 1700000000))
+        for step, (name, root) in enumerate((('A', root_a), ('B', root_b), ('A', root_a), ('B', root_b))):
+            got = node_table(Session({}, cache=True, root=(None if root == root_a else root)), mod)
+            if got != want[name]:
+                p = next((q for q in want[name] if got.get(q) != want[name][q]), None) or next(iter(set(got) - set(want[name])), '?')
+                viol.append((['two-project-roots', 'tree-of-the-other-directory' if got == want['B' if name == 'A' else 'A'] else 'tree-differs', f'step={step}'],
+                             f'session {step} in directory {name}: {p}: got {got.get(p)!r}, the file there gives {want[name].get(p)!r}', {'two_roots': [src_a, src_b]}))
+                break
+    except Exception as e:  # noqa
+        viol.append((['two-project-roots', 'raises', type(e).__name__], f'{type(e).__name__}: {e}', {'two_roots': [src_a, src_b]}))
+    finally:
+        os.chdir(root_a)
+        shutil.rmtree(root_b, ignore_errors=True)
+        shutil.rmtree(os.path.join(root_a, pkg), ignore_errors=True)
+    return viol, 4
+
+
 def tree_worker(batch):
     out = []
     for t in batch:
@@ -285,17 +327,26 @@ def run(ctx):
     for viol, cnt in res2:
         nodes += cnt
         ctx.merge(viol)
+    # two project directories in one process: pairs of different programs at the same module path and mtime
+    progs = corpus.block_programs()
+    pairs = [(progs[i], progs[j]) for i in range(min(4, len(progs))) for j in range(min(4, len(progs))) if i != j][:(4 if ctx.quick else 12)]
+    res3 = pool.pmap(two_roots, list(enumerate(pairs)), workers=ctx.workers, rotate=ctx.seed)
+    n_two = 0
+    for viol, cnt in res3:
+        n_two += cnt
+        ctx.merge(viol)
     sviol, n_syn = synthetic_layer()
     ctx.merge(sviol)
     return {
         'evaluations': n + len(batches) + n_syn,
         'synthetic_trees': n_syn,
         'distinct_nontrivial': n,
-        'rule': 'every sentence of the enumerated corpus (expressions <= 2 operator applications, statement templates) and every real module (library stubs, example, fixtures) accepted by the working-tree grammar; each tree through dumps/json/loads, EntryStored.save/load and the on-disk cache path (store in one session, restore in a second whose source provider raises); non-trivial = tree accepted by lark (>= 3 entries); synthetic layer: every hand-built lark tree with <= 4 entries below the root (leaves: tokens, missing optionals, childless rules), every leaf position x token values {SYN_VALUES} (what a project grammar keeping layout tokens produces: tokens with empty text), through dumps/loads and EntryStored',
+        'rule': 'every sentence of the enumerated corpus (expressions <= 2 operator applications, statement templates) and every real module (library stubs, example, fixtures) accepted by the working-tree grammar; each tree through dumps/json/loads, EntryStored.save/load and the on-disk cache path (store in one session, restore in a second whose source provider raises); non-trivial = tree accepted by lark (>= 3 entries); synthetic layer: every hand-built lark tree with <= 4 entries below the root (leaves: tokens, missing optionals, childless rules), every leaf position x token values {SYN_VALUES} (what a project grammar keeping layout tokens produces: tokens with empty text), through dumps/loads and EntryStored; two project directories served by one process (same module path and mtime, different text; sessions A, B, A, B): every session sees the tree of the file in its own directory',
         'samples': accepted[:2] + accepted[len(accepted) // 2: len(accepted) // 2 + 2] + [m for m, _, _ in reals[:3]],
         'entries_compared': entries,
         'nodes_compared_through_cache': nodes,
         'cache_modules': len(batches),
+        'two_root_sessions': n_two,
         'rejected_by_grammar': rejected,
         'exhaustive': True,
         'bound': 'corpus as stated',
@@ -306,6 +357,8 @@ def replay(ctx, data):
     _init_worker()
     if 'synthetic' in data:
         ctx.merge(synthetic_layer()[0])
+    elif 'two_roots' in data:
+        ctx.merge(two_roots((0, tuple(data['two_roots'])))[0])
     elif 'src' in data:
         viol, _ = tree_roundtrips(data['src'])
         ctx.merge(viol or [])
